@@ -48,7 +48,7 @@ def run(ck):
     pools = [(4, 6, 8, 12), (6, 8, 12, 16), (8, 12, 16, 24), (12, 24, 36), (24, 48)] if ck.tier == "thorough" else [(4, 6, 8, 12), (6, 8, 12, 16), (8, 12, 24), (6, 12)]
     templates_done = 0
     for i in range(ck.n(30, 200)):
-        if templates_done >= ck.n(120, 900):
+        if templates_done >= ck.n(120, 1500):
             break
         pool = rng.choice(pools)
         spec, _ = R.gen_search_spec(rng, fancy=(i % 2 == 1), pool=pool, levels=(2, 3, 3), enumerate_space=False)
@@ -66,8 +66,8 @@ def run(ck):
         caps, err = T.capture_run(af, spec, d, mset)
         dist["specs"] += 1
         dist["mapper_errors"] += err is not None
-        if len(caps) > 15:
-            caps = rng.sample(caps, 15)       # at most 15 templates of one spec: the amount of work does not hinge on one spec
+        if ck.quick() and len(caps) > 15:
+            caps = rng.sample(caps, 15)       # quick tier: at most 15 templates of one spec, so that the amount of work does not hinge on one spec
         for ent in caps:
             templates_done += 1
             dist["templates"] += 1
